@@ -873,3 +873,49 @@ Proof. reflexivity. Qed.
 
 Lemma covers_cline : forall s sp a b, covers s sp (RC a b) = true <-> (a <= s + sp - 1 /\ s <= b).
 Proof. intros. unfold covers. rewrite andb_true_iff, !Z.leb_le. tauto. Qed.
+
+(* ================================================================================================ *)
+(* what the border code sees of a digested cell is what was written in it                             *)
+
+Lemma is_ws_tree_of : forall d c, is_ws (tree_of d c) = blank_content c.
+Proof. intros d c. destruct c as [k| | | | |]; try reflexivity; destruct k; reflexivity. Qed.
+
+Lemma rule_of_tree_of : forall d c, rule_of (kind_of (tree_of d c)) = content_rule c.
+Proof. intros d c. destruct c as [k| | | | |]; try reflexivity; destruct k; reflexivity. Qed.
+
+Lemma multi_of_tree_of : forall d c, multi_of (tree_of d c) = content_multi c.
+Proof. intros d c. destruct c as [k| | | | |]; try reflexivity; destruct k; reflexivity. Qed.
+
+Lemma scan_tree_of : forall d b, scan_rules (map (tree_of d) b) = scan_content b.
+Proof.
+  intros d. induction b as [|c b IH]; [reflexivity|]. cbn [map scan_rules scan_content].
+  rewrite is_ws_tree_of, rule_of_tree_of, IH. reflexivity.
+Qed.
+
+Lemma border_only_tree_of : forall d c,
+  border_only_item (tree_of d c) = (blank_content c || match content_rule c with Some _ => true | None => false end).
+Proof. intros d c. destruct c as [k| | | | |]; try reflexivity; destruct k; reflexivity. Qed.
+
+Theorem cell_view_written : forall d d' cell, cell_view (T KCell d' (map (tree_of d) cell)) = acell_of cell.
+Proof.
+  intros d d' cell. unfold cell_view, acell_of. cbn [children].
+  rewrite <- map_rev. rewrite !scan_tree_of.
+  assert (Hm : last_multi (map (tree_of d) cell)
+               = fold_left (fun acc c => match content_multi c with Some p => Some p | None => acc end) cell None).
+  { unfold last_multi. generalize (@None (Z * colstyle)). induction cell as [|c cell IH]; intros acc; [reflexivity|].
+    cbn [map fold_left]. rewrite multi_of_tree_of. apply IH. }
+  rewrite Hm.
+  assert (Hb : forallb border_only_item (map (tree_of d) cell)
+               = forallb (fun c => blank_content c || match content_rule c with Some _ => true | None => false end) cell).
+  { clear Hm. induction cell as [|c cell IH]; [reflexivity|]. cbn [map forallb]. rewrite border_only_tree_of, IH. reflexivity. }
+  rewrite Hb. reflexivity.
+Qed.
+
+(* the styles of the table digested from a written table are the Spec's styles of the table as written *)
+Theorem written_table_styles : forall cols d rows,
+  apply_borders cols (map row_view (map (fun row => T KRow d (map (fun cell => T KCell d (map (tree_of d) cell)) row)) rows))
+  = table_spec cols (map (map acell_of) rows).
+Proof.
+  intros cols d rows. rewrite borders_adjacent. f_equal. rewrite map_map. apply map_ext. intros row.
+  unfold row_view. cbn [children]. rewrite map_map. apply map_ext. intros cell. apply cell_view_written.
+Qed.
